@@ -45,6 +45,7 @@ package core
 //@   modifies contents(gang.WaitingForBindChildren), contents(gang.PendingChildren)
 
 //@ func (*Gang).delAssumedPod [C04]
+//@   option inline RemoveWaitingGang DeleteIfRepresentative setResourceSatisfied isGangOnceResourceSatisfied
 //@   requires nonnil(gang)
 //@   ensures #nonnil: nonnil(gang)
 //@   requires mapsOK(gang) && pod != nil
@@ -54,18 +55,22 @@ package core
 //@   ensures #gone: !has(gang.WaitingForBindChildren, podKey(pod))
 //@   ensures #back: old(has(gang.WaitingForBindChildren, podKey(pod))) && has(gang.Children, podKey(pod)) ==> has(gang.PendingChildren, podKey(pod))
 //@   ensures #noop: !old(has(gang.WaitingForBindChildren, podKey(pod))) ==> (forall id string :: has(gang.PendingChildren, id) == old(has(gang.PendingChildren, id)))
+//@   modifies contents(gang.WaitingForBindChildren), contents(gang.PendingChildren), contents(gang.GangGroupInfo.WaitingGangIDs), gang.GangGroupInfo.BindingMemberPods
 
 //@ func (*Gang).addBoundPod [C04]
+//@   option inline RemoveWaitingGang DeleteIfRepresentative setResourceSatisfied isGangOnceResourceSatisfied
 //@   requires nonnil(gang)
 //@   ensures #nonnil: nonnil(gang)
 //@   requires mapsOK(gang) && pod != nil
-//@   requires disjoint3(gang) && covered(gang)
+//@   requires disjoint3(gang) && (forall id string :: id != podKey(pod) ==> coveredAt(gang, id))
 //@   ensures #partition: disjoint3(gang)
 //@   ensures #covered: covered(gang)
 //@   ensures #bound: has(gang.BoundChildren, podKey(pod)) && !has(gang.WaitingForBindChildren, podKey(pod)) && !has(gang.PendingChildren, podKey(pod))
 //@   ensures #satisfied: gang.GangGroupInfo.OnceResourceSatisfied
+//@   modifies contents(gang.WaitingForBindChildren), contents(gang.PendingChildren), contents(gang.BoundChildren), contents(gang.GangGroupInfo.WaitingGangIDs), gang.GangGroupInfo.BindingMemberPods, gang.GangGroupInfo.RepresentativePodKey, gang.GangGroupInfo.OnceResourceSatisfied
 
 //@ func (*Gang).deletePod [C04]
+//@   option inline RemoveWaitingGang DeleteIfRepresentative setResourceSatisfied isGangOnceResourceSatisfied
 //@   requires nonnil(gang)
 //@   ensures #nonnil: nonnil(gang)
 //@   requires mapsOK(gang)
@@ -74,3 +79,240 @@ package core
 //@   ensures #covered: covered(gang)
 //@   ensures #gone: pod != nil ==> !has(gang.Children, podKey(pod)) && !has(gang.PendingChildren, podKey(pod)) && !has(gang.WaitingForBindChildren, podKey(pod)) && !has(gang.BoundChildren, podKey(pod))
 //@   ensures #result: result <==> (pod != nil && gang.GangFrom == GangFromPodAnnotation && len(gang.Children) == 0)
+//@   modifies contents(gang.Children), contents(gang.PendingChildren), contents(gang.WaitingForBindChildren), contents(gang.BoundChildren), contents(gang.GangGroupInfo.WaitingGangIDs), gang.GangGroupInfo.BindingMemberPods, gang.GangGroupInfo.RepresentativePodKey
+
+// ---- C04, part 2: permit decision, strict-mode rejection, event handlers ----
+
+//@ uses pkg/scheduler/plugins/coscheduling/util
+
+// Constructor: fresh gang with four distinct empty member maps and the documented defaults. The body reads the
+// package-level clock hook timeNowFn (a dynamic call the engine cannot name), hence trusted.
+//@ func NewGang [C04]
+//@   ensures #fresh: result != nil && fresh(result) && mapsOK(result)
+//@   ensures #empty: forall id string :: !has(result.Children, id) && !has(result.PendingChildren, id) && !has(result.WaitingForBindChildren, id) && !has(result.BoundChildren, id)
+//@   ensures #defaults: result.Name == gangName && result.Mode == extension.GangModeStrict && result.GangMatchPolicy == extension.GangMatchPolicyOnceSatisfied && !result.HasGangInit && result.GangFrom == GangFromPodAnnotation
+//@   modifies nothing
+//@   option trusted
+
+// Bookkeeping of "this gang group has pods waiting in Permit" (metric + binding-member reset); only the
+// group's WaitingGangIDs set is written.
+//@ func (*GangGroupInfo).AddWaitingGang [C04]
+//@   requires gg != nil && gg.WaitingGangIDs != nil
+//@   modifies contents(gg.WaitingGangIDs)
+
+// The four data-structure invariants of a gang that every Gang method above preserves.
+//@ spec func gangOK(g *Gang) bool = mapsOK(g) && disjoint3(g) && covered(g) && nonnil(g)
+
+// Id of the gang a pod belongs to (namespace/gangName), as computed by GetGangByPod and the event handlers.
+//@ spec func gangIdOf(pod *corev1.Pod) string = util.GetId(pod.ObjectMeta.Namespace, extension.GetGangName(pod))
+
+// "This gang has at least its minimum number of members holding resources" (= isGangValidForPermit#policy).
+//@ spec func validForPermit(g *Gang) bool = g.HasGangInit && (g.GangMatchPolicy == extension.GangMatchPolicyOnlyWaiting ? len(g.WaitingForBindChildren) >= g.MinRequiredNumber : (g.GangMatchPolicy == extension.GangMatchPolicyWaitingAndRunning ? len(g.WaitingForBindChildren) + len(g.BoundChildren) >= g.MinRequiredNumber : (len(g.WaitingForBindChildren) >= g.MinRequiredNumber || g.GangGroupInfo.OnceResourceSatisfied)))
+
+// Gang `id` is known to the cache AND satisfied. A gang of the group that is missing from the cache is NOT satisfied.
+//@ spec func satisfiedAt(c *GangCache, id string) bool = c.gangItems[id] != nil && validForPermit(c.gangItems[id])
+
+// Cache-level invariant: every cached gang carries a gang-group record.
+//@ spec func cacheOK(c *GangCache) bool = c != nil && c.gangItems != nil && (forall id string :: {c.gangItems[id]} c.gangItems[id] != nil ==> c.gangItems[id].GangGroupInfo != nil)
+
+// ENGINE GAP: len(<map that depends on a quantified variable>) inside forall/exists makes the engine emit side
+// facts with the bound variable free (solver error "unknown constant j_N"). "Every gang of the group is satisfied"
+// needs exactly that, so the universal statement is proven for an ARBITRARY index instead: anyIdx is an
+// uninterpreted (unconstrained) function, hence a clause proven for anyIdx(pgMgr) holds for every index.
+//@ spec func anyIdx(p *PodGroupManager) int
+
+// Permit. The pod is first moved into its gang's waiting set; it is released (Success) exactly when EVERY gang id
+// of the gang group is in the cache and satisfied, otherwise it waits for the gang's wait time:
+//   #allsatisfied  Success ==> gang group member number anyIdx (i.e. every member) is cached and satisfied;
+//   #witness       the Wait branch (the only caller of addWaitingGang, #waitiff) is entered only with a concrete
+//                  member `groupName` of the gang group that is missing from the cache or not satisfied.
+// The scheduler only permits pods that are not bound yet (requires !has(Bound, pod)).
+//@ func (*PodGroupManager).Permit [C04]
+//@   requires pgMgr != nil && pod != nil && cacheOK(pgMgr.cache)
+//@   requires pgMgr.cache.gangItems[gangIdOf(pod)] != nil ==> gangOK(pgMgr.cache.gangItems[gangIdOf(pod)]) && !has(pgMgr.cache.gangItems[gangIdOf(pod)].BoundChildren, podKey(pod))
+//@   let g = pgMgr.cache.gangItems[gangIdOf(pod)]
+//@   let isGangPod = extension.GetGangName(pod) != ""
+//@   let k = anyIdx(pgMgr)
+//@   option inline getGangFromCacheByGangId
+//@   ensures #notgang: !isGangPod ==> result1 == PodGroupNotSpecified && result0 == 0
+//@   ensures #notfound: isGangPod && g == nil ==> result1 == PodGroupNotFound && result0 == 0
+//@   ensures #untouched: !isGangPod || g == nil ==> (forall m map[string]*corev1.Pod, id string :: has(m, id) == old(has(m, id))) && calls("addAssumedPod") == 0 && calls("addWaitingGang") == 0
+//@   ensures #waiting: isGangPod && g != nil ==> calls("addAssumedPod") == 1 && has(g.WaitingForBindChildren, podKey(pod)) && !has(g.PendingChildren, podKey(pod)) && !has(g.BoundChildren, podKey(pod))
+//@   ensures #inv: isGangPod && g != nil ==> gangOK(g)
+//@   ensures #allsatisfied: isGangPod && g != nil && result1 == Success && 0 <= k && k < len(g.GangGroup) ==> satisfiedAt(pgMgr.cache, g.GangGroup[k])
+//@   assert before call addWaitingGang: #witness: !satisfiedAt(pgMgr.cache, groupName) && (exists j int :: 0 <= j && j < len(gang.GangGroup) && gang.GangGroup[j] == groupName)
+//@   ensures #waitiff: isGangPod && g != nil ==> (result1 == Success && result0 == 0 && calls("addWaitingGang") == 0) || (result1 == Wait && result0 == g.WaitTime && calls("addWaitingGang") == 1)
+//@   modifies contents(pgMgr.cache.gangItems[gangIdOf(pod)].WaitingForBindChildren), contents(pgMgr.cache.gangItems[gangIdOf(pod)].PendingChildren), contents(pgMgr.cache.gangItems[gangIdOf(pod)].GangGroupInfo.WaitingGangIDs)
+//@   loop 1 invariant 0 <= $i && $i <= len(gangGroup)
+//@   loop 1 invariant #sofar: allGangGroupAssumed && (0 <= anyIdx(pgMgr) && anyIdx(pgMgr) < $i ==> satisfiedAt(pgMgr.cache, gangGroup[anyIdx(pgMgr)]))
+
+// "id is one of the gang ids of g's gang group".
+//@ spec func inGroup(g *Gang, id string) bool = exists j int :: 0 <= j && j < len(g.GangGroup) && g.GangGroup[j] == id
+
+// rejectGangGroupById: a gang unknown to the cache rejects nobody; otherwise rejectGangGroup is called exactly once,
+// with the caller's handle and message and with exactly the set of gang ids of the gang's gang group.
+//@ func (*PodGroupManager).rejectGangGroupById [C04]
+//@   requires pgMgr != nil
+//@   option inline getGangFromCacheByGangId
+//@   assert before call rejectGangGroup: #wholegroup: $arg0 == handle && $arg2 == message && gang == pgMgr.cache.gangItems[gangId] && (forall id string :: {$arg1.Has(id)} $arg1.Has(id) <==> inGroup(gang, id))
+//@   ensures #missing: pgMgr.cache.gangItems[gangId] == nil ==> calls("rejectGangGroup") == 0
+//@   ensures #found: pgMgr.cache.gangItems[gangId] != nil ==> calls("rejectGangGroup") == 1
+//@   modifies nothing
+
+// Gang id of a pod waiting in the framework's permit stage, as the two callbacks below compute it.
+//@ spec func waitingGangId(wp fwktype.WaitingPod) string = util.GetId(wp.GetPod().ObjectMeta.Namespace, extension.GetGangName(wp.GetPod()))
+
+// rejectGangGroup: with a framework handle, every waiting pod is visited once by the callback below; without, nothing.
+//@ func (*PodGroupManager).rejectGangGroup [C04]
+//@   ensures #visitall: calls("IterateOverWaitingPods") == (handle != nil ? 1 : 0)
+//@   assert before call IterateOverWaitingPods: #thehandle: $recv == handle
+//@   modifies nothing
+
+// The callback handed to IterateOverWaitingPods: a waiting pod is rejected (once, with the job-reject plugin name
+// and the caller's message) if and only if its gang id is in the gang-group set; other waiting pods are left alone.
+//@ func (*PodGroupManager).rejectGangGroup$1 [C04]
+//@   ensures #iff: calls("Reject") == (deref($fv_gangSet).Has(waitingGangId(waitingPod)) ? 1 : 0)
+//@   ensures #noallow: calls("Allow") == 0
+//@   assert before call Reject: #thispod: $recv == waitingPod && $arg0 == frameworkext.JobRejectPlugin && $arg1 == old(deref($fv_message))
+//@   modifies nothing
+
+// The gang a pod belongs to, as GetGangByPod finds it (nil: not a gang pod, or gang not cached).
+//@ spec func gangOf(p *PodGroupManager, pod *corev1.Pod) *Gang = extension.GetGangName(pod) == "" ? nil : p.cache.gangItems[gangIdOf(pod)]
+
+// AllowGangGroup: a pod without a cached gang releases nobody; otherwise every waiting pod is visited once by the
+// callback below. Membership of the pending / waiting / bound sets is not touched.
+//@ func (*PodGroupManager).AllowGangGroup [C04]
+//@   requires pgMgr != nil && pod != nil && pgMgr.cache != nil
+//@   option inline getGangFromCacheByGangId
+//@   ensures #visitall: calls("IterateOverWaitingPods") == (old(gangOf(pgMgr, pod)) != nil ? 1 : 0)
+//@   assert before call IterateOverWaitingPods: #thehandle: $recv == handle
+//@   ensures #sets: forall m map[string]*corev1.Pod, id string :: has(m, id) == old(has(m, id))
+
+// The callback handed to IterateOverWaitingPods: a waiting pod is allowed (once, under the caller's plugin name) if
+// and only if its gang id is one of the gang ids of the gang group; it never rejects.
+//@ func (*PodGroupManager).AllowGangGroup$1 [C04]
+//@   ensures #iff: calls("Allow") == ((exists j int :: 0 <= j && j < len(deref($fv_gangSlices)) && deref($fv_gangSlices)[j] == waitingGangId(waitingPod)) ? 1 : 0)
+//@   ensures #noreject: calls("Reject") == 0
+//@   assert before call Allow: #thispod: $recv == waitingPod && $arg0 == old(deref($fv_pluginName))
+//@   modifies nothing
+//@   loop 1 invariant 0 <= $i && $i <= len(deref($fv_gangSlices)) && calls("Allow") == 0
+//@   loop 1 invariant forall j int :: 0 <= j && j < $i ==> deref($fv_gangSlices)[j] != podGangId
+
+// Strict-mode roll-back rule: a failed / rolled-back member rejects the whole gang group unless the gang uses the
+// once-satisfied match policy and its group has already been satisfied once.
+//@ spec func onceDone(g *Gang) bool = g.GangMatchPolicy == extension.GangMatchPolicyOnceSatisfied && g.GangGroupInfo.OnceResourceSatisfied
+//@ spec func mustReject(g *Gang) bool = g.Mode == extension.GangModeStrict && !onceDone(g)
+
+// Failure-message bookkeeping of the current gang scheduling context / the cycle's schedule diagnosis: reads the gang
+// cache (waiting pods of the group), never writes it. (anyPods only names the type []*Pod for the frame designator:
+// the waiting-pod list is built with append.)
+//@ spec func anyPods(p *PodGroupManager) []*corev1.Pod
+//@ func (*PodGroupManager).summaryAndRecordFailedMessage [C04]
+//@   requires pgMgr != nil && pgMgr.cache != nil
+//@   option inline getGangFromCacheByGangId getWaitingPodsNum getWaitingPods
+//@   modifies allfields(GangSchedulingContext), allfields(frameworkext.ScheduleDiagnosis), allelems(anyPods(pgMgr))
+
+// Patches a PodScheduled=False condition onto the still-pending pods of the gang group through the API server; it
+// reads the gang cache and writes no pre-existing modelled state. Trusted (API client / parallelizer plumbing).
+//@ func (*PodGroupManager).patchGangPendingPodsCondition [C04]
+//@   modifies nothing
+//@   option trusted
+
+// AfterPostFilter (a member turned out unschedulable). The whole gang group is rejected by the gang's id exactly
+// when mustReject holds for the pod's gang (strict mode, and not "once-satisfied policy with the group already
+// satisfied"), with the caller's handle / plugin name; a non-gang pod or a pod whose gang is not cached rejects
+// nobody. Membership of the pending / waiting / bound sets is not touched, and the pod stays unschedulable.
+//@ func (*PodGroupManager).AfterPostFilter [C04]
+//@   requires pgMgr != nil && pod != nil && cacheOK(pgMgr.cache)
+//@   option inline getGangFromCacheByGangId clearWaitingGang ClearWaitingGang
+//@   assert before call rejectGangGroupById: #strict: gang == old(gangOf(pgMgr, pod)) && mustReject(gang) && old(mustReject(gangOf(pgMgr, pod))) && $arg0 == handle && $arg1 == pluginName && $arg2 == gang.Name
+//@   ensures #nogang: old(gangOf(pgMgr, pod)) == nil ==> calls("rejectGangGroupById") == 0
+//@   ensures #rejectiff: old(gangOf(pgMgr, pod)) != nil ==> calls("rejectGangGroupById") == (old(mustReject(gangOf(pgMgr, pod))) ? 1 : 0)
+//@   ensures #sets: forall m map[string]*corev1.Pod, id string :: has(m, id) == old(has(m, id))
+//@   ensures #unschedulable: result1 != nil && result1.code == fwktype.Unschedulable
+
+// Unreserve (roll-back of one member). The pod leaves its gang's waiting set (delAssumedPod, exactly once, for this
+// pod and its own gang; the partition invariants survive), and the whole gang group is rejected by the gang's id
+// exactly when mustReject holds for the gang; a non-gang pod or a pod whose gang is not cached does nothing.
+//@ func (*PodGroupManager).Unreserve [C04]
+//@   requires pgMgr != nil && pod != nil && cacheOK(pgMgr.cache)
+//@   requires gangOf(pgMgr, pod) != nil ==> gangOK(gangOf(pgMgr, pod))
+//@   option inline getGangFromCacheByGangId
+//@   assert before call delAssumedPod: #thispod: $recv == old(gangOf(pgMgr, pod)) && $arg0 == pod
+//@   assert before call rejectGangGroupById: #strict: gang == old(gangOf(pgMgr, pod)) && mustReject(gang) && $arg0 == handle && $arg1 == pluginName && $arg2 == gang.Name
+//@   ensures #nogang: old(gangOf(pgMgr, pod)) == nil ==> calls("delAssumedPod") == 0 && calls("rejectGangGroupById") == 0
+//@   ensures #released: old(gangOf(pgMgr, pod)) != nil ==> calls("delAssumedPod") == 1 && !has(old(gangOf(pgMgr, pod)).WaitingForBindChildren, podKey(pod)) && disjoint3(old(gangOf(pgMgr, pod))) && covered(old(gangOf(pgMgr, pod))) && nonnil(old(gangOf(pgMgr, pod)))
+//@   ensures #rejectiff: old(gangOf(pgMgr, pod)) != nil ==> calls("rejectGangGroupById") == (mustReject(old(gangOf(pgMgr, pod))) ? 1 : 0)
+
+// ---- event level: pod add / update / delete and PostBind ----
+
+// The gang a pod belongs to, looked up directly in a gang cache (nil: not a gang pod, or gang not cached).
+//@ spec func cacheGangOf(c *GangCache, pod *corev1.Pod) *Gang = extension.GetGangName(pod) == "" ? nil : c.gangItems[gangIdOf(pod)]
+
+// tryInitByPodConfig parses the gang annotations of a pod into the scalar configuration fields of the gang; the
+// member maps and the gang-group record are not touched.
+//@ func (*Gang).tryInitByPodConfig [C04]
+//@   requires gang != nil && pod != nil && args != nil
+//@   modifies gang.MinRequiredNumber, gang.TotalChildrenNum, gang.Mode, gang.GangMatchPolicy, gang.CreateTime, gang.WaitTime, gang.GangGroup, gang.GangGroupId, gang.NetworkTopologySpec, gang.GangFrom, gang.HasGangInit, allelems(gang.GangGroup)
+
+// Every cached gang-group record has its waiting-gang set allocated (NewGangGroupInfo is the only constructor).
+//@ spec func groupInfosOK(c *GangCache) bool = c.gangGroupInfoMap != nil && (forall id string :: {c.gangGroupInfoMap[id]} c.gangGroupInfoMap[id] != nil ==> c.gangGroupInfoMap[id].WaitingGangIDs != nil)
+
+// "id is in exactly one of the pending / waiting / bound sets of g".
+//@ spec func exactlyOne(g *Gang, id string) bool = (has(g.PendingChildren, id) ? 1 : 0) + (has(g.WaitingForBindChildren, id) ? 1 : 0) + (has(g.BoundChildren, id) ? 1 : 0) == 1
+
+// onPodAddInternal (informer add / update event). For a gang pod the gang is looked up or created, the pod is
+// recorded as a child of ITS gang (setChild, once) and, when it already has a node, moved to the bound set
+// (addBoundPod, once, after setChild, same gang, same pod); right after addBoundPod the pod is bound and in exactly
+// one set (#boundone). At return the pod is a child of its cached gang and in EXACTLY ONE of pending / waiting /
+// bound, and the gang's partition invariants hold (#child); a pod with a node is bound (#bound).
+// ENGINE GAP: on the "create" path of a node-less pod with a workload auditor, `workloadauditor.PodIsGated` (a
+// package-level func variable) is called: "havoc: dynamic call of a function value at gang_cache.go:164" cannot be
+// named or declared an observer, so #child is stated for the paths that do not reach it (there the call-site
+// clauses still hold).
+//@ func (*GangCache).onPodAddInternal [C04]
+//@   requires gangCache != nil && gangCache.gangItems != nil && groupInfosOK(gangCache) && gangCache.pluginArgs != nil
+//@   requires typeis(obj, *corev1.Pod) ==> payload(obj, *corev1.Pod) != nil
+//@   requires typeis(obj, *corev1.Pod) && cacheGangOf(gangCache, payload(obj, *corev1.Pod)) != nil ==> gangOK(cacheGangOf(gangCache, payload(obj, *corev1.Pod)))
+//@   let p = payload(obj, *corev1.Pod)
+//@   let isGangPod = typeis(obj, *corev1.Pod) && extension.GetGangName(payload(obj, *corev1.Pod)) != ""
+//@   option inline getGangFromCacheByGangId getGangGroupInfo NewGangGroupInfo
+//@   assert before call setChild: #owngang: $recv == gang && gang != nil && gang == gangCache.gangItems[gangIdOf(pod)] && $arg0 == pod && pod == old(p) && calls("addBoundPod") == 0
+//@   assert before call addBoundPod: #aftersetchild: $recv == gang && $arg0 == pod && pod == old(p) && calls("setChild") == 1 && pod.Spec.NodeName != "" && has(gang.Children, podKey(pod)) && gang.Children[podKey(pod)] == pod
+//@   assert after call addBoundPod: #boundone: has(gang.BoundChildren, podKey(pod)) && exactlyOne(gang, podKey(pod)) && disjoint3(gang) && covered(gang) && nonnil(gang)
+//@   ensures #ignored: !isGangPod ==> calls("setChild") == 0 && calls("addBoundPod") == 0
+//@   ensures #calls: isGangPod ==> calls("setChild") == 1 && calls("addBoundPod") == (old(p.Spec.NodeName) != "" ? 1 : 0)
+//@   ensures #child: isGangPod && (old(p.Spec.NodeName) != "" || action != "create" || old(gangCache.workloadAuditor) == nil) ==> cacheGangOf(gangCache, p) != nil && has(cacheGangOf(gangCache, p).Children, podKey(p)) && cacheGangOf(gangCache, p).Children[podKey(p)] == p && exactlyOne(cacheGangOf(gangCache, p), podKey(p)) && disjoint3(cacheGangOf(gangCache, p)) && covered(cacheGangOf(gangCache, p)) && nonnil(cacheGangOf(gangCache, p))
+//@   ensures #bound: isGangPod && old(p.Spec.NodeName) != "" ==> has(cacheGangOf(gangCache, p).BoundChildren, podKey(p)) && cacheGangOf(gangCache, p).GangGroupInfo.OnceResourceSatisfied
+
+// The pod carried by an informer delete event: the object itself, or the pod inside a DeletedFinalStateUnknown
+// tombstone; nil when the event carries neither.
+//@ spec func isTombPod(obj any) bool = typeis(obj, cache.DeletedFinalStateUnknown) && typeis(payload(obj, cache.DeletedFinalStateUnknown).Obj, *corev1.Pod)
+//@ spec func deletedPod(obj any) *corev1.Pod = typeis(obj, *corev1.Pod) ? payload(obj, *corev1.Pod) : (isTombPod(obj) ? payload(payload(obj, cache.DeletedFinalStateUnknown).Obj, *corev1.Pod) : nil)
+
+// onPodDelete: the deleted pod (direct or from a tombstone) is removed from its gang (deletePod, exactly once, for this
+// pod and its own gang) and afterwards is in NONE of the gang's children / pending / waiting / bound sets, whatever
+// set it was in before; the partition invariants of the gang survive. A non-gang pod, a pod whose gang is not
+// cached, or an event without a pod touches no gang. (Informers never deliver typed-nil pods.)
+//@ func (*GangCache).onPodDelete [C04]
+//@   requires gangCache != nil && gangCache.gangItems != nil
+//@   requires typeis(obj, *corev1.Pod) || isTombPod(obj) ==> deletedPod(obj) != nil
+//@   requires deletedPod(obj) != nil && cacheGangOf(gangCache, deletedPod(obj)) != nil ==> gangOK(cacheGangOf(gangCache, deletedPod(obj)))
+//@   let p = deletedPod(obj)
+//@   option inline getGangFromCacheByGangId
+//@   assert before call deletePod: #thispod: $recv == old(cacheGangOf(gangCache, p)) && $arg0 == old(p) && old(p) != nil
+//@   ensures #nogang: p == nil || old(cacheGangOf(gangCache, p)) == nil ==> calls("deletePod") == 0
+//@   ensures #gone: p != nil && old(cacheGangOf(gangCache, p)) != nil ==> calls("deletePod") == 1 && !has(old(cacheGangOf(gangCache, p)).Children, podKey(p)) && !has(old(cacheGangOf(gangCache, p)).PendingChildren, podKey(p)) && !has(old(cacheGangOf(gangCache, p)).WaitingForBindChildren, podKey(p)) && !has(old(cacheGangOf(gangCache, p)).BoundChildren, podKey(p))
+//@   ensures #inv: p != nil && old(cacheGangOf(gangCache, p)) != nil ==> disjoint3(old(cacheGangOf(gangCache, p))) && covered(old(cacheGangOf(gangCache, p))) && nonnil(old(cacheGangOf(gangCache, p)))
+
+// PostBind: the bound pod moves into its gang's bound set (addBoundPod, exactly once, this pod, its own gang): it is
+// afterwards bound and neither waiting nor pending, the partition invariants survive, and the gang group is marked
+// satisfied once. A non-gang pod or a pod whose gang is not cached touches no gang.
+//@ func (*PodGroupManager).PostBind [C04]
+//@   requires pgMgr != nil && pod != nil && cacheOK(pgMgr.cache)
+//@   requires gangOf(pgMgr, pod) != nil ==> gangOK(gangOf(pgMgr, pod))
+//@   option inline getGangFromCacheByGangId
+//@   assert before call addBoundPod: #thispod: $recv == old(gangOf(pgMgr, pod)) && $arg0 == pod
+//@   ensures #nogang: old(gangOf(pgMgr, pod)) == nil ==> calls("addBoundPod") == 0
+//@   ensures #bound: old(gangOf(pgMgr, pod)) != nil ==> calls("addBoundPod") == 1 && has(old(gangOf(pgMgr, pod)).BoundChildren, podKey(pod)) && !has(old(gangOf(pgMgr, pod)).WaitingForBindChildren, podKey(pod)) && !has(old(gangOf(pgMgr, pod)).PendingChildren, podKey(pod))
+//@   ensures #inv: old(gangOf(pgMgr, pod)) != nil ==> disjoint3(old(gangOf(pgMgr, pod))) && covered(old(gangOf(pgMgr, pod))) && nonnil(old(gangOf(pgMgr, pod))) && old(gangOf(pgMgr, pod)).GangGroupInfo.OnceResourceSatisfied
